@@ -141,7 +141,7 @@ theorem inv_step (max : Nat) (s s' : Sys St (Loc α) α α) (m : Move α) (h : I
           cases d with
           | data a =>
             by_cases hlt : st.taken < max
-            · exec 3
+            · exec 2
               refine ⟨by omega, hoth, hoths, Mode.m3 h1 h2 rfl rfl ?_ ?_⟩
               · intro _ he; exact ⟨a, stk, by rw [← he]⟩
               · exact List.forall_mem_cons.2 ⟨by simp [Benign], fun f hf => benign_mono (h6 f hf) (by simp)⟩
